@@ -410,7 +410,8 @@ def run(scn):
                 break
     waits = ma.wait_cycles
     stats = {"cycles": bench.cycle["sys"], "checks": checks + st["armed"], "nontrivial": bool(raw and waits),
-             "faults": {"lat_slave": len(sa.log) if sa else 0},
+             "faults": {"lat_slave": len(sa.log) if sa else 0, "zero_wait_slave": int(bool(sa is not None and hasattr(sa, "allow"))),
+                        "burst_wait_state": sum(1 for o in ops if o.get("cti") in (2, 7, 1) and o.get("keep_cyc") and o.get("gap"))},
              "probes": {"read_after_write_lanes": raw, "bursts": sum(1 for o in ops if o.get("cti") == 7),
                         "store_writes": sum(1 for x in sa.log if x["we"]) if sa else 0, "fam_" + fam: 1},
              "fingerprints": sorted(bench.fingerprints)[:200]}
